@@ -6,10 +6,13 @@
 
       C11_safe : ∀ f dev bytes st, safe (decode f dev bytes st)        (safe = neither `ub _ _` nor `hang _`)
 
-  is FALSE for the current code. Below: machine-checked witnesses (`*_witness`, by `decide`, each also replayed on the
-  real readers under ASan/UBSan by the harness: checks/C11_witnesses.json), the negation of the full statement per
-  format, regression theorems for the two defects already fixed in /repo, and what is proven for ALL inputs:
-  the fuel bounds of every loop that is not bounded by a counter (termination proportional to the input length).
+  is still FALSE for the current code at three kinds of site (short row reads accepted, the `int` pitch of the BMP
+  scanline reader, palette indices beyond the declared entries silently read as black). Below: machine-checked witnesses
+  (`*_witness`, `decide`, each also replayed on the real readers under ASan/UBSan by the harness:
+  checks/C11_witnesses.json), the negation of the full statement per format, regression theorems for the ten defects
+  fixed in /repo during this work (their former witnesses now decode to an exception or to a correct image), and what
+  is proven for ALL inputs: the fuel bounds of every loop that is not bounded by a counter, and the safety of
+  read_image_info for the three formats on both devices.
 
   Only property theorems live here (C11_*); helper lemmas are in Lemmas/C11.lean.
 -/
@@ -38,108 +41,132 @@ def safe : Outcome → Bool
   | .err _ => true
   | _ => false
 
-/-! ## witnesses: the current code violates the property (one per defect site) -/
-/-- BMP, 40-byte header, height = INT_MIN: `-_info._height` overflows (reader_backend.hpp: read_header), through read_image_info -/
-theorem C11_bmp_int_min_height_witness :
-    ubSite (decode .bmp .file (bytesOfHex 0x424d360000000000000036000000280000000200000000000080010018000000000000000000130b0000130b00000000000000000000 54 [])
-      { entry := .info, dst := .none, x0 := 0, y0 := 0, dw := 0, dh := 0, vw := 0, vh := 0 })
-      = some "negation-overflow@extension/io/bmp/detail/reader_backend.hpp:read_header" := by
-  decide +kernel
-/-- 8-bit BMP declaring 2 palette entries, pixel value 200: `_palette[c]` outside the vector -/
-theorem C11_bmp_palette_index_witness :
-    ubSite (decode .bmp .file (bytesOfHex 0x424d42000000000000003e000000280000000200000001000000010008000000000000000000130b0000130b000002000000000000001e140a003c32280000c80000 66 [])
-      { entry := .image, dst := .rgba8, x0 := 0, y0 := 0, dw := 0, dh := 0, vw := 0, vh := 0 }) = some "vector-index@extension/io/bmp/detail/read.hpp:read_palette_image" := by
-  decide +kernel
-/-- 16-bit BI_BITFIELDS BMP with red mask 0: shift by trailing_zeros(0) = 32 -/
-theorem C11_bmp_mask_zero_shift_witness :
-    ubSite (decode .bmp .file (bytesOfHex 0x424d460000000000000042000000280000000100000001000000010010000300000000000000130b0000130b0000000000000000000000000000e00700001f000000ffff0000 70 [])
-      { entry := .image, dst := .rgb8, x0 := 0, y0 := 0, dw := 0, dh := 0, vw := 0, vh := 0 }) = some "shift-exponent@extension/io/bmp/detail/read.hpp:read_data_15" := by
-  decide +kernel
-/-- 16-bit BI_BITFIELDS BMP with red mask 0xFFFF: shift by unsigned(8 - 16) -/
-theorem C11_bmp_mask_wide_shift_witness :
-    ubSite (decode .bmp .file (bytesOfHex 0x424d460000000000000042000000280000000100000001000000010010000300000000000000130b0000130b00000000000000000000ffff0000e00700001f000000ffff0000 70 [])
-      { entry := .image, dst := .rgb8, x0 := 0, y0 := 0, dw := 0, dh := 0, vw := 0, vh := 0 }) = some "shift-exponent@extension/io/bmp/detail/read.hpp:read_data_15" := by
-  decide +kernel
-/-- RLE4 BMP 3 pixels wide, absolute run of 4: the low nibble of the second byte is written past the row buffer -/
-theorem C11_bmp_rle4_absolute_overrun_witness :
-    ubSite (decode .bmp .file (bytesOfHex 0x424d44000000000000003e000000280000000300000001000000010004000200000000000000130b0000130b000002000000000000001e140a003c322800000401010001 68 [])
-      { entry := .image, dst := .rgb8, x0 := 0, y0 := 0, dw := 0, dh := 0, vw := 0, vh := 0 }) = some "heap-buffer-overflow@extension/io/bmp/detail/read.hpp:read_palette_image_rle" := by
-  decide +kernel
-/-- the first 30 bytes of a 2x2 24-bit BMP through std::istream: read_uint16 consumes an uninitialised array -/
-theorem C11_istream_short_read_witness :
-    ubSite (decode .bmp .stream (bytesOfHex 0x424d46000000000000003600000028000000020000000200000001001800 30 [])
-      { entry := .image, dst := .rgb8, x0 := 0, y0 := 0, dw := 0, dh := 0, vw := 0, vh := 0 }) = some "uninit@io/device.hpp:istream_device::read" := by
-  decide +kernel
+/-! ## witnesses: where the current code still violates the property -/
 /-- 2x2 24-bit BMP without its last 3 bytes through FILE*: the short row read is accepted, stale bytes become pixels -/
 theorem C11_short_row_read_witness :
     ubSite (decode .bmp .file (bytesOfHex 0x424d460000000000000036000000280000000200000002000000010018000000000000000000130b0000130b0000000000000000000001020304050600000708090a0b 67 [])
       { entry := .image, dst := .rgb8, x0 := 0, y0 := 0, dw := 0, dh := 0, vw := 0, vh := 0 }) = some "inconsistent-data-accepted" := by
   decide +kernel
-/-- 24-bit BMP with width 0: BOOST_ASSERT in init_image (TARGA rejects such headers, BMP and PNM do not) -/
-theorem C11_bmp_zero_width_witness :
-    ubSite (decode .bmp .file (bytesOfHex 0x424d460000000000000036000000280000000000000002000000010018000000000000000000130b0000130b0000000000000000000001020304050600000708090a0b0c0000 70 [])
-      { entry := .image, dst := .rgb8, x0 := 0, y0 := 0, dw := 0, dh := 0, vw := 0, vh := 0 }) = some "assert@io/reader_base.hpp:init_image" := by
+
+/-- `P5 2 2 255` followed by 3 of its 4 bytes: read_image reports success -/
+theorem C11_pnm_short_row_read_witness :
+    ubSite (decode .pnm .file (bytesOfHex 0x50350a3220320a3235350a010203 14 [])
+      { entry := .image, dst := .gray8, x0 := 0, y0 := 0, dw := 0, dh := 0, vw := 0, vh := 0 }) = some "inconsistent-data-accepted" := by
   decide +kernel
-/-- 2x2 24-bit BMP, settings top_left (1,0) dim (2,2): columns beyond the row buffer are read -/
-theorem C11_settings_beyond_image_witness :
-    ubSite (decode .bmp .file (bytesOfHex 0x424d460000000000000036000000280000000200000002000000010018000000000000000000130b0000130b0000000000000000000001020304050600000708090a0b0c0000 70 [])
-      { entry := .image, dst := .rgb8, x0 := 1, y0 := 0, dw := 2, dh := 2, vw := 0, vh := 0 }) = some "heap-buffer-overflow@extension/io/bmp/detail/read.hpp:read_data" := by
+
+/-- raw 2x2 24-bit TARGA cut after its first row: read_image reports success -/
+theorem C11_targa_short_row_read_witness :
+    ubSite (decode .tga .file (bytesOfHex 0x000002000000000000000000020002001800010203040506 24 [])
+      { entry := .image, dst := .rgb8, x0 := 0, y0 := 0, dw := 0, dh := 0, vw := 0, vh := 0 }) = some "inconsistent-data-accepted" := by
   decide +kernel
+
 /-- 24-bit BMP with width 0x7FFFFFFF through the scanline reader: `_info._width * 3` overflows int -/
 theorem C11_bmp_pitch_overflow_witness :
     ubSite (decode .bmp .file (bytesOfHex 0x424d46000000000000003600000028000000ffffff7f02000000010018000000000000000000130b0000130b0000000000000000000001020304050600000708090a0b0c0000 70 [])
       { entry := .scan, dst := .none, x0 := 0, y0 := 0, dw := 0, dh := 0, vw := 0, vh := 0 }) = some "signed-integer-overflow@extension/io/bmp/detail/scanline_read.hpp:initialize" := by
   decide +kernel
-/-- `P2 2 2 255 1 2 x 4` into a 2x2 view: the second row is never written, the read reports success -/
-theorem C11_pnm_text_row_incomplete_witness :
-    ubSite (decode .pnm .file (bytesOfHex 0x50320a3220320a3235350a312032207820340a 19 [])
-      { entry := .view, dst := .gray8, x0 := 0, y0 := 0, dw := 0, dh := 0, vw := 2, vh := 2 }) = some "inconsistent-data-accepted" := by
+
+/-- 8-bit BMP declaring 2 palette entries, pixel value 200: no longer out of bounds, but read as black from the padding instead of being reported (the residual of C11-bmp-palette-index-unchecked) -/
+theorem C11_bmp_palette_index_padded_witness :
+    ubSite (decode .bmp .file (bytesOfHex 0x424d42000000000000003e000000280000000200000001000000010008000000000000000000130b0000130b000002000000000000001e140a003c32280000c80000 66 [])
+      { entry := .image, dst := .rgba8, x0 := 0, y0 := 0, dw := 0, dh := 0, vw := 0, vh := 0 }) = some "inconsistent-data-accepted" := by
   decide +kernel
-/-- BMP with a 41-byte info header and height -2 through the scanline reader: iterating begin()..end() does not terminate -/
-theorem C11_bmp_v4_negative_height_hang_witness :
-    isHang (decode .bmp .file (bytesOfHex 0x424d4700000000000000370000002900000002000000feffffff010018000000000000000000130b0000130b000000000000000000000001020304050600000708090a0b0c0000 71 [])
-      { entry := .scan, dst := .none, x0 := 0, y0 := 0, dw := 0, dh := 0, vw := 0, vh := 0 }) = true := by
-  decide +kernel
+
 /-! ## the full statement is false for each format's current reader -/
 
 /-- OPEN (not provable: false today): `∀ dev bytes st, safe (decode .bmp dev bytes st)`; its negation: -/
 theorem C11_safe_bmp_false : ¬ ∀ (dev : Dev) (bytes : List UInt8) (st : Settings), safe (decode .bmp dev bytes st) = true := by
   intro h
-  have := h .file (bytesOfHex 0x424d42000000000000003e000000280000000200000001000000010008000000000000000000130b0000130b000002000000000000001e140a003c32280000c80000 66 [])
-      { entry := .image, dst := .rgba8, x0 := 0, y0 := 0, dw := 0, dh := 0, vw := 0, vh := 0 }
+  have := h .file (bytesOfHex 0x424d460000000000000036000000280000000200000002000000010018000000000000000000130b0000130b0000000000000000000001020304050600000708090a0b 67 [])
+      { entry := .image, dst := .rgb8, x0 := 0, y0 := 0, dw := 0, dh := 0, vw := 0, vh := 0 }
   revert this
   decide +kernel
 
 /-- OPEN (false today): `∀ dev bytes st, safe (decode .pnm dev bytes st)`; its negation: -/
 theorem C11_safe_pnm_false : ¬ ∀ (dev : Dev) (bytes : List UInt8) (st : Settings), safe (decode .pnm dev bytes st) = true := by
   intro h
-  have := h .file (bytesOfHex 0x50320a3220320a3235350a312032207820340a 19 [])
-      { entry := .view, dst := .gray8, x0 := 0, y0 := 0, dw := 0, dh := 0, vw := 2, vh := 2 }
+  have := h .file (bytesOfHex 0x50350a3220320a3235350a010203 14 [])
+      { entry := .image, dst := .gray8, x0 := 0, y0 := 0, dw := 0, dh := 0, vw := 0, vh := 0 }
   revert this
   decide +kernel
 
-/-- OPEN (false today): `∀ dev bytes st, safe (decode .tga dev bytes st)`; its negation (a raw 2x2 file cut after its first row: -/
+/-- OPEN (false today): `∀ dev bytes st, safe (decode .tga dev bytes st)`; its negation: -/
 theorem C11_safe_tga_false : ¬ ∀ (dev : Dev) (bytes : List UInt8) (st : Settings), safe (decode .tga dev bytes st) = true := by
   intro h
   have := h .file (bytesOfHex 0x000002000000000000000000020002001800010203040506 24 [])
       { entry := .image, dst := .rgb8, x0 := 0, y0 := 0, dw := 0, dh := 0, vw := 0, vh := 0 }
   revert this
   decide +kernel
-/-! ## defects already fixed in /repo stay fixed (the pre-fix tree wrote out of bounds on these inputs) -/
 
-/-- PNM text token of 40 digits: now `std::ios_base::failure` ("Number too long"), formerly a stack-buffer-overflow -/
+/-! ## defects fixed in /repo stay fixed: the former witnesses now give an exception or a correct image -/
+
+/-- 2914a43: PNM text token of 40 digits (formerly a stack-buffer-overflow) -/
 theorem C11_pnm_long_token_is_error :
     decode .pnm .file (bytesOfHex 0x50320a3220310a3235350a3131313131313131313131313131313131313131313131313131313131313131313131313131313120370a 54 [])
       { entry := .image, dst := .gray8, x0 := 0, y0 := 0, dw := 0, dh := 0, vw := 0, vh := 0 } = .err "io" := by
   decide +kernel
 
-/-- TARGA 2x2 RLE with one 128-pixel packet: now an error ("packet exceeds the image size"), formerly a heap-buffer-overflow -/
+/-- 2747323: TARGA 2x2 RLE with one 128-pixel packet (formerly a heap-buffer-overflow) -/
 theorem C11_targa_rle_overrun_is_error :
     decode .tga .file (bytesOfHex 0x00000a000000000000000000020002001800ff010203 22 [])
       { entry := .image, dst := .rgb8, x0 := 0, y0 := 0, dw := 0, dh := 0, vw := 0, vh := 0 } = .err "io" := by
   decide +kernel
 
-/-! ## the models decode valid files (the witnesses above are not artefacts of a model that rejects everything) -/
+/-- ad1e4c7: BMP height INT_MIN (formerly `-INT_MIN`) -/
+theorem C11_bmp_int_min_height_is_error :
+    decode .bmp .file (bytesOfHex 0x424d360000000000000036000000280000000200000000000080010018000000000000000000130b0000130b00000000000000000000 54 [])
+      { entry := .info, dst := .none, x0 := 0, y0 := 0, dw := 0, dh := 0, vw := 0, vh := 0 } = .err "io" := by
+  decide +kernel
+
+/-- 12811a4: BI_BITFIELDS mask 0 (formerly a shift by 32) -/
+theorem C11_bmp_mask_zero_is_error :
+    decode .bmp .file (bytesOfHex 0x424d460000000000000042000000280000000100000001000000010010000300000000000000130b0000130b0000000000000000000000000000e00700001f000000ffff0000 70 [])
+      { entry := .image, dst := .rgb8, x0 := 0, y0 := 0, dw := 0, dh := 0, vw := 0, vh := 0 } = .err "io" := by
+  decide +kernel
+
+/-- 12811a4: BI_BITFIELDS mask 0xFFFF (formerly a shift by unsigned(8 - 16)) -/
+theorem C11_bmp_mask_wide_is_error :
+    decode .bmp .file (bytesOfHex 0x424d460000000000000042000000280000000100000001000000010010000300000000000000130b0000130b00000000000000000000ffff0000e00700001f000000ffff0000 70 [])
+      { entry := .image, dst := .rgb8, x0 := 0, y0 := 0, dw := 0, dh := 0, vw := 0, vh := 0 } = .err "io" := by
+  decide +kernel
+
+/-- b2161e7: RLE4 absolute run of 4 in a 3-pixel row (formerly one pixel written past the row buffer) -/
+theorem C11_bmp_rle4_absolute_clamped_ok :
+    isOk (decode .bmp .file (bytesOfHex 0x424d44000000000000003e000000280000000300000001000000010004000200000000000000130b0000130b000002000000000000001e140a003c322800000401010001 68 [])
+      { entry := .image, dst := .rgb8, x0 := 0, y0 := 0, dw := 0, dh := 0, vw := 0, vh := 0 }) = true := by
+  decide +kernel
+
+/-- cdb7c21: truncated header through std::istream (formerly uninitialised bytes used as header fields) -/
+theorem C11_istream_short_read_is_error :
+    decode .bmp .stream (bytesOfHex 0x424d46000000000000003600000028000000020000000200000001001800 30 [])
+      { entry := .image, dst := .rgb8, x0 := 0, y0 := 0, dw := 0, dh := 0, vw := 0, vh := 0 } = .err "io" := by
+  decide +kernel
+
+/-- ad1e4c7: BMP width 0 (formerly BOOST_ASSERT in init_image) -/
+theorem C11_bmp_zero_width_is_error :
+    decode .bmp .file (bytesOfHex 0x424d460000000000000036000000280000000000000002000000010018000000000000000000130b0000130b0000000000000000000001020304050600000708090a0b0c0000 70 [])
+      { entry := .image, dst := .rgb8, x0 := 0, y0 := 0, dw := 0, dh := 0, vw := 0, vh := 0 } = .err "io" := by
+  decide +kernel
+
+/-- c6180a1: sub-rectangle beyond the image (formerly a heap-buffer-overflow READ) -/
+theorem C11_settings_beyond_image_is_error :
+    decode .bmp .file (bytesOfHex 0x424d460000000000000036000000280000000200000002000000010018000000000000000000130b0000130b0000000000000000000001020304050600000708090a0b0c0000 70 [])
+      { entry := .image, dst := .rgb8, x0 := 1, y0 := 0, dw := 2, dh := 2, vw := 0, vh := 0 } = .err "io" := by
+  decide +kernel
+
+/-- ad1e4c7: 41-byte header with negative height (formerly an endless scanline iteration) -/
+theorem C11_bmp_v4_negative_height_is_error :
+    decode .bmp .file (bytesOfHex 0x424d4700000000000000370000002900000002000000feffffff010018000000000000000000130b0000130b000000000000000000000001020304050600000708090a0b0c0000 71 [])
+      { entry := .scan, dst := .none, x0 := 0, y0 := 0, dw := 0, dh := 0, vw := 0, vh := 0 } = .err "io" := by
+  decide +kernel
+
+/-- 8a05590: PNM text data ending early (formerly success with unwritten rows) -/
+theorem C11_pnm_text_row_incomplete_is_error :
+    decode .pnm .file (bytesOfHex 0x50320a3220320a3235350a312032207820340a 19 [])
+      { entry := .view, dst := .gray8, x0 := 0, y0 := 0, dw := 0, dh := 0, vw := 2, vh := 2 } = .err "io" := by
+  decide +kernel
+
+/-! ## the models decode valid files -/
 
 theorem C11_valid_bmp24_ok : isOk (decode .bmp .file (bytesOfHex 0x424d460000000000000036000000280000000200000002000000010018000000000000000000130b0000130b0000000000000000000001020304050600000708090a0b0c0000 70 [])
       { entry := .image, dst := .rgb8, x0 := 0, y0 := 0, dw := 0, dh := 0, vw := 0, vh := 0 }) = true := by decide +kernel
@@ -147,12 +174,12 @@ theorem C11_valid_targa_rle_ok : isOk (decode .tga .file (bytesOfHex 0x00000a000
       { entry := .image, dst := .rgb8, x0 := 0, y0 := 0, dw := 0, dh := 0, vw := 0, vh := 0 }) = true := by decide +kernel
 theorem C11_valid_pnm_text_ok : isOk (decode .pnm .file (bytesOfHex 0x50320a3220320a3235350a312032203320340a 19 [])
       { entry := .image, dst := .gray8, x0 := 0, y0 := 0, dw := 0, dh := 0, vw := 0, vh := 0 }) = true := by decide +kernel
+
 /-! ## termination: every loop that is not bounded by a counter has a fuel bound (ALL inputs, both devices)
 
   The models give such a loop `unread bytes + 1` units of fuel at its entry (`fuelHere`); the theorems say this is
   never exhausted: each iteration consumes at least one input byte or ends the loop. So the number of iterations is
-  at most the file length + 1; all other loops are counted by header fields bounded by the allocation they follow.
-  (`Stop.hang` remains reachable only at the two genuine non-termination sites witnessed above / in the notes.) -/
+  at most the file length + 1; all other loops are counted by header fields bounded by the allocation they follow. -/
 
 /-- result of running an action: it is not `hang` -/
 def notHang {α} (r : Except Stop (α × St)) : Prop := ∀ w, r ≠ .error (.hang w)
@@ -183,115 +210,76 @@ theorem C11_terminates_pnm_text_row (site : String) (maxv : Int) (process : Bool
     notHang ((Pnm.textSamples site maxv process n x row) s) :=
   notHang_of_NHs (nh_pnm_textSamples site maxv process n x row s)
 
-/-- whole-entry corollary: read_image_info on a PNM stream never hangs, whatever the bytes and the device -/
-theorem C11_pnm_info_terminates (dev : Dev) (bytes : List UInt8) :
-    isHang (decode .pnm dev bytes { entry := .info, dst := .none, x0 := 0, y0 := 0, dw := 0, dh := 0, vw := 0, vh := 0 }) = false := by
-  unfold decode runRaw
-  simp only
-  have key := nh_pnm_readHeader { data := bytes.map UInt8.toNat, pos := 0, rest := bytes.map UInt8.toNat, failed := false, dev := dev, taint := none }
-  unfold NHs at key
-  unfold Pnm.run
-  rw [StateT.run, bind_eq]
-  cases h : Pnm.readHeader { data := bytes.map UInt8.toNat, pos := 0, rest := bytes.map UInt8.toNat, failed := false, dev := dev, taint := none } with
-  | error e =>
-    rw [h] at key
-    cases e with
-    | err k => rfl
-    | ub a b => rfl
-    | hang w => exact absurd rfl (key w)
-  | ok p =>
-    obtain ⟨i, s'⟩ := p
-    simp only [Pure.pure, StateT.pure, Except.pure]
-    cases s'.taint <;> rfl
-
-/-! ## safety proven for ALL inputs: the header readers behind read_image_info -/
-
-/-- read_image_info on a PNM file: for all bytes, both devices and all settings the outcome is a header or a C++
-    exception -- never undefined behaviour, never a hang (the PNM header code uses only checked `getc`) -/
-theorem C11_pnm_info_safe (dev : Dev) (bytes : List UInt8) (st : Settings) (he : st.entry = .info) :
-    safe (decode .pnm dev bytes st) = true := by
-  unfold decode runRaw
-  simp only
-  have key := se_pnm_readHeader adm_isErr { data := bytes.map UInt8.toNat, pos := 0, rest := bytes.map UInt8.toNat, failed := false, dev := dev, taint := none }
-  unfold SEs at key
-  unfold Pnm.run
-  rw [StateT.run, bind_eq]
-  cases h : Pnm.readHeader { data := bytes.map UInt8.toNat, pos := 0, rest := bytes.map UInt8.toNat, failed := false, dev := dev, taint := none } with
-  | error e =>
-    rw [h] at key
-    obtain ⟨k, hk⟩ := key
-    subst hk
-    rfl
-  | ok p =>
-    obtain ⟨i, s'⟩ := p
-    rw [h] at key
-    have ht : s'.taint = none := key.2.2
-    simp only [he, Pure.pure, StateT.pure, Except.pure, ht]
-    rfl
-
-/-- read_image_info on a TARGA file through a file name or FILE*: for all bytes and settings the outcome is a header or
-    a C++ exception (the file device checks every fixed-size read). Through std::istream this is FALSE
-    (`C11_istream_short_read_witness` is the BMP instance of the same device defect). -/
-theorem C11_targa_info_safe (bytes : List UInt8) (st : Settings) (he : st.entry = .info) :
-    safe (decode .tga .file bytes st) = true := by
-  unfold decode runRaw
-  simp only
-  have key := sef_tga_readHeader adm_isErr { data := bytes.map UInt8.toNat, pos := 0, rest := bytes.map UInt8.toNat, failed := false, dev := .file, taint := none } rfl
-  unfold SEs at key
-  unfold Tga.run
-  rw [StateT.run, bind_eq]
-  cases h : Tga.readHeader { data := bytes.map UInt8.toNat, pos := 0, rest := bytes.map UInt8.toNat, failed := false, dev := .file, taint := none } with
-  | error e =>
-    rw [h] at key
-    obtain ⟨k, hk⟩ := key
-    subst hk
-    rfl
-  | ok p =>
-    obtain ⟨i, s'⟩ := p
-    rw [h] at key
-    have ht : s'.taint = none := key.2.2
-    simp only [he, Pure.pure, StateT.pure, Except.pure, ht]
-    rfl
-
-/-- read_image_info on a BMP file through a file name or FILE*, all bytes: a header, a C++ exception, or exactly the
-    `height == INT_MIN` negation (`C11_bmp_int_min_height_witness`) -- nothing else can go wrong -/
-theorem C11_bmp_info_safe_partial (bytes : List UInt8) (st : Settings) (he : st.entry = .info) :
-    safe (decode .bmp .file bytes st) = true ∨
-    ubSite (decode .bmp .file bytes st) = some "negation-overflow@extension/io/bmp/detail/reader_backend.hpp:read_header" := by
-  unfold decode runRaw
-  simp only
-  have key := sef_bmp_readHeader { data := bytes.map UInt8.toNat, pos := 0, rest := bytes.map UInt8.toNat, failed := false, dev := .file, taint := none } rfl
-  unfold SEs at key
-  unfold Bmp.run
-  rw [StateT.run, bind_eq]
-  cases h : Bmp.readHeader { data := bytes.map UInt8.toNat, pos := 0, rest := bytes.map UInt8.toNat, failed := false, dev := .file, taint := none } with
-  | error e =>
-    rw [h] at key
-    rcases key with ⟨k, hk⟩ | ⟨w, hw⟩
-    · subst hk; left; rfl
-    · subst hw; right; rfl
-  | ok p =>
-    obtain ⟨i, s'⟩ := p
-    rw [h] at key
-    have ht : s'.taint = none := key.2.2
-    left
-    simp only [he, Pure.pure, StateT.pure, Except.pure, ht]
-    rfl
-
-example : safe (decode .tga .file [] { entry := .info, dst := .none, x0 := 0, y0 := 0, dw := 0, dh := 0, vw := 0, vh := 0 }) = true :=
-  C11_targa_info_safe [] _ rfl
-
 example : (3 : Nat) < 4 := by decide   -- (the hypotheses `s.rest.length < fuel` are what `fuelHere` establishes: rest.length < rest.length + 1)
 
+/-! ## safety proven for ALL inputs: read_image_info (header readers + the region check), every device, every setting -/
+
+private theorem safe_of_SE {m : M Img} {s : St} (hs : s.taint = none) (h : SEs IsErr m s) :
+    safe (match m s with
+      | .ok (img, s') => (match s'.taint with | none => Outcome.ok img | some why => Outcome.ub "inconsistent-data-accepted" why)
+      | .error (.err k) => Outcome.err k
+      | .error (.ub a w) => Outcome.ub a w
+      | .error (.hang w) => Outcome.hang w) = true := by
+  unfold SEs at h
+  cases hm : m s with
+  | error e =>
+    rw [hm] at h
+    obtain ⟨k, hk⟩ := h
+    subst hk
+    rfl
+  | ok p =>
+    obtain ⟨img, s'⟩ := p
+    rw [hm] at h
+    have ht : s'.taint = none := h.2.2.trans hs
+    simp only [ht]
+    rfl
+
+private theorem se_pnm_info (st : Settings) (he : st.entry = .info) : SE IsErr (Pnm.run st) := by
+  unfold Pnm.run
+  apply se_bind (se_pnm_readHeader adm_isErr); intro i
+  dsimp only
+  apply se_bind (se_checkSettings adm_isErr _ _ _ _ _); intro _
+  simp only [he]
+  exact se_pure _
+
+private theorem se_tga_info (st : Settings) (he : st.entry = .info) : SE IsErr (Tga.run st) := by
+  unfold Tga.run
+  apply se_bind (se_tga_readHeader adm_isErr); intro i
+  dsimp only
+  apply se_bind (se_checkSettings adm_isErr _ _ _ _ _); intro _
+  simp only [he]
+  exact se_pure _
+
+private theorem se_bmp_info (st : Settings) (he : st.entry = .info) : SE IsErr (Bmp.run st) := by
+  unfold Bmp.run
+  apply se_bind (se_bmp_readHeader adm_isErr); intro i
+  dsimp only
+  apply se_bind (se_checkSettings adm_isErr _ _ _ _ _); intro _
+  simp only [he]
+  exact se_pure _
+
+/-- read_image_info, for ALL byte strings, both device classes, all settings: a header or a C++ exception --
+    never undefined behaviour, never a hang. (Before /repo cdb7c21, ad1e4c7 this was false for BMP and TARGA through
+    std::istream and for BMP with height INT_MIN: see the `*_is_error` theorems above.) -/
+theorem C11_info_safe (f : Fmt) (dev : Dev) (bytes : List UInt8) (st : Settings) (he : st.entry = .info) :
+    safe (decode f dev bytes st) = true := by
+  unfold decode runRaw
+  cases f with
+  | bmp => exact safe_of_SE rfl (se_bmp_info st he _)
+  | pnm => exact safe_of_SE rfl (se_pnm_info st he _)
+  | tga => exact safe_of_SE rfl (se_tga_info st he _)
+
+example : safe (decode .tga .stream [] { entry := .info, dst := .none, x0 := 0, y0 := 0, dw := 0, dh := 0, vw := 0, vh := 0 }) = true :=
+  C11_info_safe .tga .stream [] _ rfl
+
 /-
-  -- OPEN (not proven): C11_safe_partial : WF f bytes st → safe (decode f .file bytes st)
-  --   with WF the decidable conjunction "declared sizes ≤ data present, palette indices < palette size, bit-field masks
-  --   contiguous and ≤ 8 bits wide, height ≠ INT_MIN, width,height ≥ 1, settings inside the image, RLE4 absolute runs
-  --   inside the row" and C11_wf_encode : WF (encode img). The correspondence run carries this clause: on every generated
-  --   input the real reader and the model agree, and every input on which the model reports `ub`/`hang` falls under one of
-  --   the witnessed defect sites (known_findings.json).
+  -- OPEN (not proven): C11_safe_partial : WF f bytes st → safe (decode f dev bytes st)
+  --   for the pixel-reading entry points, with WF the decidable conjunction "declared sizes ≤ data present, palette indices
+  --   < declared entries, width * bytes per pixel fits int" and C11_wf_encode : WF (encode img). The correspondence run
+  --   carries this clause: on every generated input the real reader and the model agree, and every input on which the
+  --   model reports `ub`/`hang` falls under one of the witnessed sites above (known_findings.json).
   -- OPEN (not proven): C11_terminates for whole `decode` (composition of the loop bounds above through every reader
-  --   function); proven for the loops themselves and for the PNM read_image_info entry.
+  --   function); proven for the loops themselves and, through C11_info_safe, for the read_image_info entry.
 -/
 
 end GilVerif.Props.C11
